@@ -29,9 +29,43 @@ def main():
         ctx.cleanup()
         print('MACHINERY-FAILURE %s: %s' % (pid, e))
         sys.exit(2)
-    except Exception:
+    except core.WorkerError as e:
+        print(e.tb_text)
+        if e.in_repo:
+            try:
+                ctx.violation('unexpected-exception/%s@%s' % (e.etype, e.where),
+                              'the code under test raised %s (%s) in %s on a call the check makes only with valid input' % (e.etype, e.msg[:120], e.where),
+                              {'kind': 'exception', 'traceback': e.tb_text})
+                sys.exit(ctx.finish(getattr(mod, 'LEVEL', 'model_checking')))
+            except SystemExit:
+                raise
+            except Exception:
+                pass
         ctx.cleanup()
+        print('MACHINERY-FAILURE %s: %s' % (pid, e))
+        sys.exit(2)
+    except Exception as e:
+        # An exception nobody caught. If it was raised inside the code under test (the innermost frames are picotool's),
+        # on an input or call sequence the harness only uses because it is valid, the code under test is what failed:
+        # that is reported as a violation of the property whose check was running (the unchanged tree never does this),
+        # with the traceback as the replay. Anything else is a failure of the machinery itself (exit 2).
+        tb = traceback.extract_tb(e.__traceback__)
+        inner = [f for f in tb if os.path.abspath(f.filename).startswith(os.path.abspath(core.REPO) + os.sep)]
         traceback.print_exc()
+        if tb and inner and os.path.abspath(tb[-1].filename).startswith(os.path.abspath(core.REPO) + os.sep):
+            where = '%s:%s' % (os.path.basename(inner[-1].filename), inner[-1].name)
+            try:
+                ctx.violation('unexpected-exception/%s@%s' % (type(e).__name__, where),
+                              'the code under test raised %s (%s) in %s on a call the check makes only with valid input: %s' % (
+                                  type(e).__name__, str(e)[:120], where, ' > '.join('%s:%d' % (f.name, f.lineno) for f in tb[-6:])),
+                              {'kind': 'exception', 'traceback': traceback.format_exc()[-3000:]})
+                rc = ctx.finish(getattr(mod, 'LEVEL', 'model_checking') if 'mod' in dir() else 'model_checking')
+                sys.exit(rc)
+            except SystemExit:
+                raise
+            except Exception:
+                pass
+        ctx.cleanup()
         print('MACHINERY-FAILURE %s: unexpected exception' % pid)
         sys.exit(2)
     sys.exit(rc)
